@@ -356,7 +356,7 @@ def run(ck):
                "pair pings with cold and warm ARP, under interface and power toggles, and after recovery, with monitors for payload hand-over to a "
                "non-addressee and for the TTL along each frame's hops; (c) a layer-2 loop; non-trivial = table with >= 2 routes / any ping")
     coq_props(ck)
-    gen_tie.check(ck, ["route"])
+    gen_tie.check(ck, ["route", "routetable"])
     rng = ck.rng
     coq_in = []
     kinds = [(a, m, me) for (a, m) in PREFIXES[:5] for me in (0.0, 1.0)]
